@@ -9,13 +9,26 @@ from fractions import Fraction
 from cmv.oracles import csscolor
 
 OPAQUE_KINDS = ["hex6", "HEX6", "hex6n", "hex3", "hex3n", "rgb", "rgb_tight", "RGB", "rgbpct",
-                "hsl", "HSL", "keyword", "tuple", "list"]
+                "hsl", "HSL", "keyword", "tuple", "list", "ntuple", "tuplesub", "listsub"]
+
+import collections
+
+RGBTuple = collections.namedtuple("RGBTuple", "red green blue")     # e.g. webcolors.IntegerRGB
+
+
+class TupleSub(tuple):
+    pass
+
+
+class ListSub(list):
+    pass
 TRANSLUCENT_KINDS = ["rgba", "hsla", "rgba_tuple", "rgba_list"]
 
 # what make_readable must give back for each input kind
 OUT_KIND = {"hex6": "hex", "HEX6": "hex", "hex6n": "hex", "hex3": "hex", "hex3n": "hex",
             "rgb": "rgb", "rgb_tight": "rgb", "RGB": "rgb", "rgbpct": "rgb",
             "hsl": "hsl", "HSL": "hsl", "keyword": "hex", "tuple": "tuple", "list": "tuple",
+            "ntuple": "tuple", "tuplesub": "tuple", "listsub": "tuple",
             "rgba": "hex", "hsla": "hex", "rgba_tuple": "hex", "rgba_list": "hex"}
 
 _KW_BY_RGB = None
@@ -113,6 +126,12 @@ def spell(rgb, kind):
         return (r, g, b)
     if kind == "list":
         return [r, g, b]
+    if kind == "ntuple":
+        return RGBTuple(r, g, b)
+    if kind == "tuplesub":
+        return TupleSub((r, g, b))
+    if kind == "listsub":
+        return ListSub([r, g, b])
     raise KeyError(kind)
 
 
@@ -140,10 +159,16 @@ def available(rgb, kinds=OPAQUE_KINDS):
 
 
 def jsonable(x):
-    return list(x) if isinstance(x, tuple) else x
+    return list(x) if isinstance(x, (tuple, list)) else x
 
 
 def from_json(x, kind):
     if kind in ("tuple", "rgba_tuple") and isinstance(x, list):
         return tuple(x)
+    if kind == "ntuple":
+        return RGBTuple(*x)
+    if kind == "tuplesub":
+        return TupleSub(x)
+    if kind == "listsub":
+        return ListSub(x)
     return x
